@@ -349,7 +349,9 @@ func (k Keeper) calcFeeTokenMinted(
 		return burnt, minted, types.ErrInvalidSwap
 	}
 
-	tokenMinted, err := k.GetToken(ctx, swapParams.MinUnit)
+	// the registry names the minted token by its min unit: resolve it as such (GetToken would try the
+	// name as a symbol first, and another token may carry that symbol)
+	tokenMinted, err := k.getTokenByMinUnit(ctx, swapParams.MinUnit)
 	if err != nil {
 		return burnt, minted, err
 	}
